@@ -7,6 +7,7 @@ CONSTANTS
   AllowMixed = TRUE
   NCorrupt = 6
   Subst0 = {48}
+  WithRelocs = FALSE
   Lens = {0, 2, 5}
 INIT Init
 NEXT Next
